@@ -341,10 +341,11 @@ class Mitochondria:
         if pathway is None:
             pathway = self._detect_pathway(expression)
 
-        if not self.silent:
-            print(f"⚡ [Mitochondria] Metabolizing: {expression[:50]}...")
-
         try:
+            # Inside the handler: echoing hostile text (e.g. lone surrogates) can itself raise
+            if not self.silent:
+                print(f"⚡ [Mitochondria] Metabolizing: {expression[:50]}...")
+
             if pathway == MetabolicPathway.GLYCOLYSIS:
                 result = self._glycolysis(expression)
             elif pathway == MetabolicPathway.KREBS_CYCLE:
